@@ -315,7 +315,9 @@ Next ==
           /\ PrintT(<<"REJECT", Traces[tid].id, l,
                       ExpFails((CHOOSE x \in cands : TRUE).st, o) \cup sf \cup stutter
                         \cup (IF FreshOK((CHOOSE x \in cands : TRUE).st, e) THEN {} ELSE {"fresh"}), "first">>)
-          /\ ok' = FALSE /\ UNCHANGED st
+          \* the call is rejected; the specification goes on from the state it prescribes for this
+          \* result, so that the rest of the history is still compared with what should be there
+          /\ st' = (CHOOSE x \in cands : TRUE).st /\ UNCHANGED ok
 
 Spec == Init /\ [][Next]_vars
 =============================================================================
